@@ -40,17 +40,83 @@ DCOLS = {"cart": "VBMCart.Cart number", "tray": "Tray #", "tab": "Tabulator Numb
 HCOLS = {"cart": "Container", "tab": "Tabulator", "batch": "Batch Name", "size": "Number of Ballots"}
 
 
-def make_frame(vendor, rows, rng=None):
-    """rows: list of dict(cart, tray, tab, batch, size) with int entries.  A real pandas frame, columns in a
-    generated order, sometimes with an unrelated extra column."""
+INDEX_KINDS = ["default", "default", "sorted", "filtered", "gapped", "string"]
+LABEL_DTYPES = ["int64", "int64", "int32", "object", "str"]
+SIZE_DTYPES = ["int64", "int64", "int32", "object"]
+SAMPLE_KINDS = ["list", "ndarray", "tuple", "series", "npints"]
+
+
+def gen_rep(rng):
+    """a representation of a legal manifest / call: how the frame's index came about, column dtypes, column order,
+    an unrelated extra column, the type of the bounds and of the sample container"""
+    return {"index": rng.choice(INDEX_KINDS), "label_dtype": rng.choice(LABEL_DTYPES), "size_dtype": rng.choice(SIZE_DTYPES),
+            "shuffle_cols": rng.random() < 0.5, "extra_col": rng.random() < 0.3, "col_seed": rng.randrange(10 ** 6),
+            "np_bounds": rng.random() < 0.4, "sample_kind": rng.choice(SAMPLE_KINDS)}
+
+
+def make_frame(vendor, rows, rng=None, rep=None):
+    """rows: list of dict(cart, tray, tab, batch, size) with int entries, in manifest order.  A real pandas frame in the
+    representation `rep`: index 0..n-1, or permuted (the frame was sorted), gapped (rows were filtered out), explicit
+    gapped or string labels; label columns int64 / int32 / object / str, counts int64 / int32 / object."""
+    import random as _r
+    if rep is None:
+        rep = gen_rep(rng) if rng is not None else {"index": "default"}
     cols = DCOLS if vendor == "D" else HCOLS
     names = list(cols.items())
-    if rng is not None:
-        rng.shuffle(names)
+    cr = _r.Random(rep.get("col_seed", 0))
+    if rep.get("shuffle_cols"):
+        cr.shuffle(names)
+    n = len(rows)
+    kind = rep.get("index", "default")
     d = {cn: [r[k] for r in rows] for k, cn in names}
-    if rng is not None and rng.random() < 0.3:
-        d["Comment"] = ["x"] * len(rows)
-    return pd.DataFrame(d)
+    if rep.get("extra_col"):
+        d["Comment"] = ["x"] * n
+    if kind == "sorted":          # built in another order, then sorted into manifest order: index is a permutation
+        perm = list(range(n))
+        cr.shuffle(perm)
+        d2 = {cn: [None] * n for cn in d}
+        d2["_ord"] = [0] * n
+        for pos, j in enumerate(perm):
+            for cn in d:
+                d2[cn][j] = d[cn][pos]
+            d2["_ord"][j] = pos
+        df = pd.DataFrame(d2).sort_values("_ord").drop(columns="_ord")
+    elif kind == "filtered":      # rows of other elections filtered out: index has gaps
+        keep, d2 = [], {cn: [] for cn in d}
+        for pos in range(n):
+            for _ in range(cr.randint(0, 2)):
+                keep.append(False)
+                for cn in d:
+                    d2[cn].append(d[cn][pos])
+            keep.append(True)
+            for cn in d:
+                d2[cn].append(d[cn][pos])
+        df = pd.DataFrame(d2)
+        df = df[pd.Series(keep)]
+    else:
+        df = pd.DataFrame(d)
+        if kind == "gapped":
+            df.index = sorted(cr.sample(range(1, 3 * n + 3), n))
+        elif kind == "string":
+            df.index = [f"r{cr.randint(0, 99)}_{j}" for j in range(n)]
+    ld, sd = rep.get("label_dtype", "int64"), rep.get("size_dtype", "int64")
+    for k, cn in cols.items():
+        dt = sd if k == "size" else ld
+        if dt != "int64":
+            df[cn] = df[cn].astype(dt)
+    return df
+
+
+def as_sample(sample, kind):
+    if kind == "ndarray" and len(sample):
+        return np.array(sample, dtype=int)
+    if kind == "tuple":
+        return tuple(sample)
+    if kind == "series":
+        return pd.Series(list(sample), dtype="int64")
+    if kind == "npints":
+        return [np.int64(x) for x in sample]
+    return list(sample)
 
 
 def enc(x):
@@ -92,46 +158,97 @@ def frame_rows(vendor, m):
     return out
 
 
-def run_manifest(vendor, rows, max_cards, n_cvrs, samples, rng=None, as_array=False):
-    """prep_manifest, then sample_from_manifest on the RETURNED frame once per sample (the frame is reused)."""
-    V, CVR = impl()
-    V = V[vendor]
+def conv_sfm(vendor, out):
+    cards, so, mv = out
+    if vendor == "D":
+        cs = [[enc(c[0]), enc(c[1]), enc(c[2]), enc(c[3]), int(c[4])] + list(parse_id(c[5])) + [int(c[6])]
+              if len(c) == 7 else [BAD] for c in cards]
+    else:
+        cs = [[enc(c[0]), enc(c[1]), enc(c[2]), int(c[3])] + list(parse_id(c[4])) if len(c) == 5 else [BAD]
+              for c in cards]
+    sol = []
+    for k, v in so.items():
+        if isinstance(v, dict) and set(v) == {"selection_order", "serial"}:
+            sol.append((parse_id(k), (int(v["selection_order"]), int(v["serial"]))))
+        else:
+            sol.append(((BAD, BAD, BAD), (BAD, BAD)))
+    return ("ok", cs, sol, [parse_id(c.id) for c in mv]), {"mv_ok": all(c.phantom is True and c.votes == {} for c in mv)}
+
+
+def prep_phase(vendor, rows, max_cards, n_cvrs, rng=None, rep=None, frame=None):
+    """one prep_manifest call on a real frame (or on `frame`, an object that already went through the implementation)"""
+    V = impl()[0][vendor]
     if vendor == "H":
         rows = [dict(r, tray=0) for r in rows]      # Hart manifests have no tray column
-    df = make_frame(vendor, rows, rng)
-    case = {"vendor": vendor, "rows": rows, "max": max_cards, "ncvrs": n_cvrs, "runs": [], "raw": []}
+    if rep is None:
+        rep = gen_rep(rng) if rng is not None else {"index": "default", "sample_kind": "list"}
+    df = make_frame(vendor, rows, rng, rep) if frame is None else frame
+    case = {"vendor": vendor, "rows": rows, "max": int(max_cards), "ncvrs": int(n_cvrs), "runs": [], "raw": [],
+            "rep": dict(rep, index_labels=[str(x) for x in list(df.index)[:12]], reused_frame=frame is not None)}
+    mx, nc = (np.int64(max_cards), np.int64(n_cvrs)) if rep.get("np_bounds") else (int(max_cards), int(n_cvrs))
+    m2 = None
     try:
         with warnings.catch_warnings():
             warnings.simplefilter("ignore")
-            m2, mc, ph = V.prep_manifest(df, max_cards, n_cvrs)
+            m2, mc, ph = V.prep_manifest(df, mx, nc)
         case["prep"] = ("ok", frame_rows(vendor, m2), [int(v) for v in m2["cum_cards"]], int(mc), int(ph))
     except Exception as e:  # noqa
         case["prep"] = ("err", exc_enum(e), f"{type(e).__name__}: {e}"[:200])
-        return case
-    for sample in samples:
-        arg = np.array(sample, dtype=int) if (as_array and len(sample)) else list(sample)
-        try:
-            cards, so, mv = V.sample_from_manifest(m2, arg)
-        except Exception as e:  # noqa
-            case["runs"].append((sample, ("err", exc_enum(e), f"{type(e).__name__}: {e}"[:200])))
-            case["raw"].append(None)
-            continue
-        if vendor == "D":
-            cs = [[enc(c[0]), enc(c[1]), enc(c[2]), enc(c[3]), int(c[4])] + list(parse_id(c[5])) + [int(c[6])]
-                  if len(c) == 7 else [BAD] for c in cards]
-        else:
-            cs = [[enc(c[0]), enc(c[1]), enc(c[2]), int(c[3])] + list(parse_id(c[4])) if len(c) == 5 else [BAD]
-                  for c in cards]
-        sol = []
-        for k, v in so.items():
-            if isinstance(v, dict) and set(v) == {"selection_order", "serial"}:
-                sol.append((parse_id(k), (int(v["selection_order"]), int(v["serial"]))))
-            else:
-                sol.append(((BAD, BAD, BAD), (BAD, BAD)))
-        mvl = [parse_id(c.id) for c in mv]
-        case["runs"].append((sample, ("ok", cs, sol, mvl)))
-        case["raw"].append({"mv_ok": all(c.phantom is True and c.votes == {} for c in mv)})
-    return case
+    return case, df, m2
+
+
+def sample_phase(case, m2, sample, kind=None):
+    vendor = case["vendor"]
+    V = impl()[0][vendor]
+    arg = as_sample(sample, kind or case["rep"].get("sample_kind", "list"))
+    try:
+        out = V.sample_from_manifest(m2, arg)
+    except Exception as e:  # noqa
+        case["runs"].append((list(sample), ("err", exc_enum(e), f"{type(e).__name__}: {e}"[:200])))
+        case["raw"].append(None)
+        return
+    o, raw = conv_sfm(vendor, out)
+    case["runs"].append((list(sample), o))
+    case["raw"].append(raw)
+
+
+def run_manifest_group(specs, rng=None):
+    """specs: (vendor, rows, max_cards, n_cvrs, samples, rep).  All manifests are prepared first, then their lookups are
+    made alternately (round-robin) in this one process; each lookup must be what a fresh process would return."""
+    prepared = [prep_phase(v, rows, mx, nc, rng, rep) + (samples,) for v, rows, mx, nc, samples, rep in specs]
+    depth = max([len(p[3]) for p in prepared] + [0])
+    for j in range(depth):
+        for case, _, m2, samples in prepared:
+            if m2 is not None and j < len(samples):
+                kind = None if j == 0 or rng is None else rng.choice(SAMPLE_KINDS)
+                sample_phase(case, m2, samples[j], kind)
+    return [p[0] for p in prepared], prepared
+
+
+def run_manifest(vendor, rows, max_cards, n_cvrs, samples, rng=None, as_array=False, rep=None):
+    """prep_manifest, then sample_from_manifest on the RETURNED frame once per sample (the frame is reused)."""
+    if rep is None and rng is None:
+        rep = {"index": "default", "sample_kind": "ndarray" if as_array else "list"}
+    return run_manifest_group([(vendor, rows, max_cards, n_cvrs, samples, rep)], rng)[0][0]
+
+
+def reprep_cases(prepared_entry, rng):
+    """the same manifest prepared again: (i) the caller's frame object a second time (prep_manifest may have written to
+    it), (ii) the frame prep_manifest returned, prepared again with the same bound.  Dominion only: Hart's prepared
+    frames carry their counts as strings, which Hart.prep_manifest itself cannot read (reported, not judged here)."""
+    case, df, m2, samples = prepared_entry
+    out = []
+    if case["vendor"] != "D" or m2 is None:
+        return out
+    c2, _, m3 = prep_phase("D", case["rows"], case["max"], case["ncvrs"], rng, dict(case["rep"]), frame=df)
+    if m3 is not None and samples:
+        sample_phase(c2, m3, samples[0])
+    out.append(c2)
+    c3, _, m4 = prep_phase("D", case["prep"][1], case["max"], case["ncvrs"], rng, dict(case["rep"]), frame=m2)
+    if m4 is not None and samples:
+        sample_phase(c3, m4, samples[-1])
+    out.append(c3)
+    return out
 
 
 # ------------------------------------------------------------------ literals
@@ -175,7 +292,7 @@ def man_lit(c):
 def man_json(c):
     return {"vendor": c["vendor"], "sizes": [r["size"] for r in c["rows"]],
             "labels": [(r["tab"], r["batch"]) for r in c["rows"]], "max_cards": c["max"], "n_cvrs": c["ncvrs"],
-            "prep": C.jsonable(c["prep"]), "runs": C.jsonable([(s, o if o[0] == "err" else "ok") for s, o in c["runs"]][:3])}
+            "representation": C.jsonable(c.get("rep")), "prep": C.jsonable(c["prep"]), "runs": C.jsonable([(s, o if o[0] == "err" else "ok") for s, o in c["runs"]][:3])}
 
 
 # ------------------------------------------------------------------ generation
@@ -343,8 +460,8 @@ def oracle_manifest(case):
                 bad.append("two sample numbers mapped to one card")
                 break
             seen.add((b, k))
-            if total < mx and b == len(prows) - 1:
-                phantom_ids.append(cid)
+            if (total < mx and b == len(prows) - 1) or rows[min(b, len(rows) - 1)]["tab"] == 0 and b < len(rows):
+                phantom_ids.append(cid)   # the appended phantom batch, or one the given manifest already carried
         else:
             if mvl != phantom_ids:
                 bad.append("phantom manual records are not exactly the sampled cards of the phantom batch, in selection order")
@@ -584,7 +701,7 @@ def run(ctx, res):
         total = sum(sizes)
         for vendor in ("D", "H"):
             for mx, nc in bound_variants(total, rng):
-                cases.append(run_manifest(vendor, mk_rows(sizes), mx, nc, samples_for(vendor, mx, rng, extra=False)))
+                cases.append(run_manifest(vendor, mk_rows(sizes), mx, nc, samples_for(vendor, mx, rng, extra=False), rng))
                 stats["exhaustive_manifests"] += 1
     # (b) refusals on a subset, (c) larger generated manifests, whole range in several orders, numpy / list samples
     for _ in range(ctx.n(60, 600)):
@@ -592,23 +709,35 @@ def run(ctx, res):
         vendor = rng.choice("DH")
         mx, nc = rng.choice(refusal_variants(sum(sizes), rng))
         cases.append(run_manifest(vendor, mk_rows(sizes, rng), mx, nc, [valid_range(vendor, max(mx, 0))[:5]], rng))
-    for _ in range(ctx.n(90, 1500)):
-        sizes = gen_sizes(rng)
-        total = sum(sizes)
-        vendor = rng.choice("DH")
-        mx, nc = rng.choice(bound_variants(total, rng) + [(total + rng.randint(1, 30), total)])
-        dup = rng.random() < 0.08
-        samples = samples_for(vendor, mx, rng)
-        if rng.random() < 0.15:             # one number beyond the range: IndexError in both vendors
-            samples.append([mx + (1 if vendor == "D" else 0) + rng.randint(0, 2)])
-            stats["invalid_number"] += 1
-        if rng.random() < 0.15 and mx:      # a repeated number
-            s0 = rng.choice(valid_range(vendor, mx))
-            samples.append([s0, rng.choice(valid_range(vendor, mx)), s0])
-        cases.append(run_manifest(vendor, mk_rows(sizes, rng, dup_labels=dup), mx, nc, samples, rng,
-                                  as_array=rng.random() < 0.5))
-        stats["random_manifests"] += 1
-        stats["dup_labels"] += dup
+    todo = ctx.n(90, 1500)
+    stats["interleaved_groups"] = stats["reprepared"] = 0
+    while todo > 0:
+        specs = []
+        for _ in range(min(todo, rng.choice([1, 2, 2, 3]))):
+            sizes = gen_sizes(rng)
+            total = sum(sizes)
+            vendor = rng.choice("DH")
+            mx, nc = rng.choice(bound_variants(total, rng) + [(total + rng.randint(1, 30), total)])
+            dup = rng.random() < 0.08
+            samples = samples_for(vendor, mx, rng)
+            if rng.random() < 0.15:             # one number beyond the range: IndexError in both vendors
+                samples.append([mx + (1 if vendor == "D" else 0) + rng.randint(0, 2)])
+                stats["invalid_number"] += 1
+            if rng.random() < 0.15 and mx:      # a repeated number
+                s0 = rng.choice(valid_range(vendor, mx))
+                samples.append([s0, rng.choice(valid_range(vendor, mx)), s0])
+            specs.append((vendor, mk_rows(sizes, rng, dup_labels=dup), mx, nc, samples, None))
+            stats["random_manifests"] += 1
+            stats["dup_labels"] += dup
+        todo -= len(specs)
+        group, prepared = run_manifest_group(specs, rng)     # lookups on the group's manifests alternate
+        cases += group
+        stats["interleaved_groups"] += len(specs) > 1
+        for entry in prepared:
+            if rng.random() < 0.3:
+                extra = reprep_cases(entry, rng)             # same frame again / the returned frame prepared again
+                cases += extra
+                stats["reprepared"] += len(extra)
     cases = spread(cases, 16)
     cr = C.run_corr(ctx.pid, "man", IMPORTS, "man_case", cases, man_lit, "agree_man", shard=-(-len(cases) // 16), show="show_man")
     res.corr.append(("Dominion/Hart prep_manifest + sample_from_manifest vs Manifest.prep_manifest/sample_from_manifest",
@@ -663,7 +792,10 @@ def run(ctx, res):
         if len(c["sample"]) >= 2:
             res.nontrivial.add(repr((c["vendor"], c["ids"], c["sample"])))
     res.exhaustive = True
-    res.rule = ("(a) EVERY manifest with 1..4 batches of size 0..3 x both vendors x {bound = total, bound > total (phantom batch)}, "
+    res.rule = ("every frame in a generated REPRESENTATION (index 0..n-1 / permuted by a sort / gapped by a filter / explicit gapped or string "
+                "labels; label columns int64/int32/object/str, counts int64/int32/object; column order; extra column; bounds int or "
+                "np.int64; samples list/ndarray/tuple/Series/np.int64 list); manifests of one group are prepared first and their lookups "
+                "alternate in one process; 30% are prepared again (same frame object; the returned frame; Dominion). (a) EVERY manifest with 1..4 batches of size 0..3 x both vendors x {bound = total, bound > total (phantom batch)}, "
                 "every valid sample number ascending and descending on the frame returned by prep_manifest; (b) refusals "
                 "(bound < total, n_cvrs > total); (c) generated manifests of 1..12 batches, sizes 0..40 with empty batches at the "
                 "start/middle/end/consecutive, whole valid range ascending, descending, shuffled, a random subset, list and numpy "
@@ -673,6 +805,12 @@ def run(ctx, res):
                 "total+1,7,50 / total+1e4..2e5 / refusals, lookups spot-checked at batch boundaries incl. first/last phantom. Non-trivial = at least "
                 "two batches or an empty batch or a phantom batch (manifests), at least two sampled CVRs (from_cvrs); distinct inputs")
     res.samples = [man_json(c) for c in cases[5:7]] + [man_json(c) for c in cases[-2:]] + [cvr_json(c) for c in ccases[:2]]
+    for key in ("index", "label_dtype", "size_dtype", "sample_kind"):
+        h = {}
+        for c in cases:
+            v = c.get("rep", {}).get(key)
+            h[v] = h.get(v, 0) + 1
+        stats["rep_" + key] = h
     res.stats = stats
     res.assumptions = ["pandas (cumsum, iloc, concat, astype(str), itertuples) and np.searchsorted are modelled, not verified: "
                        "searchsorted = first index with a[i] >= v (left) / > v (right) on a sorted list",
